@@ -3,6 +3,7 @@ lbry.dht.protocol.routing_table.TreeRoutingTable driven over generated histories
 virtual clock, probe coroutine whose outcome the generator chooses), plus the property monitor evaluated on
 the implementation's own state after every operation."""
 import asyncio
+import errno
 import glob
 import ipaddress
 import json
@@ -13,6 +14,8 @@ from lbry.dht import constants
 from lbry.dht.error import RemoteException
 from lbry.dht.peer import PeerManager, make_kademlia_peer
 from lbry.dht.protocol.protocol import KademliaProtocol
+from lbry.dht.serialization.datagram import (decode_datagram, RequestDatagram, ResponseDatagram, ErrorDatagram,
+                                              RESPONSE_TYPE, ERROR_TYPE)
 from lbry.dht.protocol.routing_table import TreeRoutingTable
 
 import vlib
@@ -68,6 +71,7 @@ class Impl:
                                          is_boostrap_node=bootstrap)
         self.rt = self.protocol.routing_table
         assert isinstance(self.rt, TreeRoutingTable)
+        self.net, self.sent, self.sendfail_n = {'timeout': set(), 'error': set(), 'sendfail': set()}, [], 0
 
     def close(self):
         self.loop.close()
@@ -123,6 +127,67 @@ class Impl:
         except Exception as e:  # noqa
             ret = type(e).__name__
         return ret, probed
+
+    # -- the probe as production runs it: KademliaProtocol._add_peer -> get_rpc_peer(incumbent).ping() -> send_request
+    #    -> _send -> transport.sendto; only the UDP socket beneath it is simulated ---------------------------------
+    class _Transport:
+        def __init__(self, impl):
+            self.impl = impl
+
+        def is_closing(self):
+            return False
+
+        def close(self):
+            pass
+
+        def sendto(self, data, addr):
+            impl = self.impl
+            k = key_str(ip_int(addr[0]), addr[1] or 0)
+            msg = decode_datagram(data)
+            if not isinstance(msg, RequestDatagram):
+                return
+            who = [p for p in impl.rt.get_peers() if (p.address, p.udp_port) == addr]
+            impl.sent.append(impl.triple(who[0]) if who else [0, ip_int(addr[0]), addr[1] or 0])
+            cls = impl.net
+            if k in cls['sendfail']:        # the local socket refuses this very datagram; the contact is never asked
+                impl.sendfail_n += 1
+                code = errno.EWOULDBLOCK if impl.sendfail_n % 2 else errno.ENETUNREACH
+                raise OSError(code, os.strerror(code))
+            if k in cls['timeout'] or not who:
+                return                      # lost: the ping times out after rpc_timeout
+            nid = who[0].node_id
+            if k in cls['error']:
+                reply = ErrorDatagram(ERROR_TYPE, msg.rpc_id, nid, b'ValueError', b'boom').bencode()
+            else:
+                reply = ResponseDatagram(RESPONSE_TYPE, msg.rpc_id, nid, b'pong').bencode()
+            impl.loop.call_soon(impl.protocol.datagram_received, reply, addr)
+
+    def add_real(self, peer, cls):
+        """cls: {'timeout': keys, 'error': keys, 'sendfail': keys}; every other contact answers its ping.
+        Returns (result, contacts a ping was addressed to, virtual seconds that passed)"""
+        if self.protocol.transport is None:
+            self.protocol.connection_made(self._Transport(self))
+        self.net = {k: set(cls.get(k, ())) for k in ('timeout', 'error', 'sendfail')}
+        self.sent = []
+        start = self.now
+        task = self.loop.create_task(self.protocol._add_peer(peer))
+        spins = 0
+        while not task.done():
+            self.loop.run_until_complete(asyncio.sleep(0))
+            spins += 1
+            if not task.done() and spins % 12 == 0:
+                self.now += 1               # nothing left to do at this instant: the virtual clock moves on
+            if self.now - start > 60:
+                task.cancel()
+                self.loop.run_until_complete(asyncio.sleep(0))
+                return 'Stuck', self.sent, self.now - start
+        try:
+            ret = repr(task.result())
+        except OSError:
+            ret = 'OSError'
+        except Exception as e:  # noqa
+            ret = type(e).__name__
+        return ret, self.sent, self.now - start
 
     def remove(self, peer):
         try:
@@ -195,15 +260,19 @@ def monitor_table(own, tab, bootstrap=False):
     return None
 
 
-def monitor_add(own, before, after, new, dead, ret):
-    """before/after: flat contact lists; new: triple"""
-    if ret not in ('True', 'False'):
+def monitor_add(own, before, after, new, dead, ret, sendfail=(), probed=()):
+    """before/after: flat contact lists; new: triple; dead: contacts that do NOT answer pings (timeout or error answer);
+    sendfail: contacts the local socket cannot reach right now -- they still answer pings, they just cannot be asked"""
+    local = any(key_str(q[1], q[2]) in sendfail for q in probed)
+    if ret not in ('True', 'False') and not (ret == 'OSError' and local):
         return f'add_peer raised {ret}'
     aft = {tuple(p) for p in after}
     for q in before:
         if q[0] != new[0] and (q[1], q[2]) != (new[1], new[2]) and key_str(q[1], q[2]) not in dead:
             if tuple(q) not in aft:
-                return f'contact {hx(q[0])} answers the probe but was displaced by a newcomer at a different address'
+                why = ('still answers pings (it was never asked: the local send of the probe failed)'
+                       if key_str(q[1], q[2]) in sendfail else 'answers the probe')
+                return f'contact {hx(q[0])} {why} but was displaced by a newcomer at a different address'
     dn = new[0] ^ own
     closer = sum(1 for q in before if (q[0] ^ own) <= dn)
     if closer < K:
@@ -327,6 +396,24 @@ def execute(model, case, rp=True):
                     monitor_add(own, before, impl.contacts(), [idv, addr, port], set(dead), iret)
                 out.count('add:' + iret + (':probe-reply' if iprobed and iret == 'False' else
                                            ':probe-timeout' if iprobed else ''))
+            elif kind == 'radd':
+                idv, addr, port, cls = int(o[1], 16), o[2], o[3], o[4]
+                facts = impl.facts()
+                iret, iprobed, dt = impl.add_real(impl.mk(idv, addr, port), cls)
+                deadk = sorted(set(cls.get('timeout', [])) | set(cls.get('error', [])))
+                m = model.call('sadd_real', dead=deadk, sendfail=cls.get('sendfail', []), wait=dt,
+                               **peer_fields(idv, addr, port))
+                iobs = {'ret': iret, 'probed': iprobed, 'table': impl.table(),
+                        'facts': {k: sorted(v) for k, v in facts.items()}}
+                m['facts'] = {k: sorted(v) for k, v in m['facts'].items()}
+                bad = monitor_table(own, iobs['table']) or \
+                    monitor_add(own, before, impl.contacts(), [idv, addr, port], set(deadk), iret,
+                                set(cls.get('sendfail', [])), iprobed)
+                pk = key_str(iprobed[0][1], iprobed[0][2]) if iprobed else None
+                out.count('real-probe:' + iret + (':no-probe' if not iprobed else
+                                                  ':local-send-failure' if pk in cls.get('sendfail', []) else
+                                                  ':timeout' if pk in cls.get('timeout', []) else
+                                                  ':error-answer' if pk in cls.get('error', []) else ':answered'))
             elif kind == 'add_noid':
                 iret, iprobed = impl.add(impl.mk(None, o[1], o[2]), set())
                 m = model.call('add_noid')
@@ -413,6 +500,12 @@ def execute_bootstrap(case):
                 iret, _ = impl.add(impl.mk(idv, addr, port), set(dead))
                 bad = monitor_table(own, impl.table(), True) or \
                     monitor_add(own, before, impl.contacts(), [idv, addr, port], set(dead), iret)
+            elif kind == 'radd':
+                idv, addr, port, cls = int(o[1], 16), o[2], o[3], o[4]
+                deadk = set(cls.get('timeout', [])) | set(cls.get('error', []))
+                iret, pr, _ = impl.add_real(impl.mk(idv, addr, port), cls)
+                bad = monitor_table(own, impl.table(), True) or \
+                    monitor_add(own, before, impl.contacts(), [idv, addr, port], deadk, iret, set(cls.get('sendfail', [])), pr)
             elif kind == 'remove':
                 iret = impl.remove(impl.mk(int(o[1], 16), o[2], o[3]))
                 bad = monitor_table(own, impl.table(), True) or (None if iret == 'None' else f'remove_peer raised {iret}')
@@ -504,6 +597,10 @@ class Gen:
         p_replied = rng.choice([0.05, 0.3, 0.7])
         start = rng.choice([0, 0, 1, 1000, 100000])
         self.w_remove = rng.choice([0.0, 0.02, 0.05, 0.12])
+        self.real = rng.random() < 0.3            # drive the probe through the real protocol object
+        self.p_sf = rng.choice([0.0, 0.15, 0.4])  # share of contacts the local socket cannot reach at each add
+        if self.real and own in (0,):
+            pass
         return own, classes, n_addr, ports, n_ops, p_dead, p_replied, start
 
     def stale_kth_macro(self, impl, ops, own):
@@ -603,6 +700,35 @@ class Gen:
             near = min((i for i in ids if i != rid), key=lambda i: i ^ rid, default=rid)
             for key in (rid, near, rng.getrandbits(BITS)):
                 ops.append(['rpc', hx(key), req, 'node' if rng.random() < 0.7 else 'value'])
+        return {'own': hx(own), 'ops': ops}
+
+    def sendfail_case(self):
+        """a full bucket that may not split, every contact alive; a newcomer for that bucket arrives while the local
+        socket refuses the ping (OSError from sendto): nobody may be displaced.  Then the same newcomer with the ping
+        answered (rejected), with the ping lost or answered by an error (the probed contact is replaced)."""
+        rng = self.rng
+        own = rng.choice([0, M - 1, 1 << 383]) if rng.random() < 0.2 else rng.getrandbits(BITS)
+        half = 1 << 383
+        ops = [['t', rng.choice([1, 1000])]]
+        base = BASE_IP + 60000
+        far = rng.sample(range(1, 1 << 20), K)
+        keys = []
+        for i, d in enumerate(far):
+            ops.append(['radd', hx((half + d) ^ own), base + i, 4444, {}])
+            keys.append(key_str(base + i, 4444))
+        for d in rng.sample(range(1, 1 << 20), rng.choice([0, 1, 3])):          # some close contacts: the table is split
+            ops.append(['radd', hx(((1 << rng.randrange(100, 380)) + d) ^ own), base + 100 + d % 50, 4444, {}])
+        if rng.random() < 0.5:
+            for i in rng.sample(range(K), rng.randrange(1, K + 1)):
+                ops.append(['replied', base + i, 4444])
+            ops.append(['t', rng.choice([30, 60, 61, 700])])
+        new = (half + (1 << 21) + rng.randrange(1 << 20)) ^ own                  # farther than every incumbent
+        ops.append(['radd', hx(new), base + 500, 4444, {'sendfail': list(keys)}])    # never asked -> must stay
+        ops.append(['find', hx(own), K, None])
+        ops.append(['radd', hx(new), base + 500, 4444, {}])                          # asked, answers -> rejected
+        ops.append(['radd', hx(new), base + 500, 4444,
+                    {rng.choice(['timeout', 'error']): list(keys)}])                 # asked, dead -> replaced
+        ops.append(['radd', hx(new ^ 1), base + 501, 4444, {'sendfail': keys[:4], 'timeout': keys[4:]}])
         return {'own': hx(own), 'ops': ops}
 
     def stale_kth_case(self):
@@ -720,6 +846,19 @@ class Gen:
                             addr, port = q[1], q[2]                     # same address, another id
                     dead = [key_str(q[1], q[2]) for q in cons if rng.random() < p_dead]
                     o = ['add', hx(idv), addr, port, dead, 1 if rng.random() < 0.3 else 0]
+                    if self.real:
+                        # the probe is the real ping of KademliaProtocol._add_peer over a simulated socket; per contact:
+                        # answers / ping lost (timeout) / error answer / the LOCAL sendto() raises OSError
+                        if idv == own:
+                            idv = own ^ 1                                # KademliaProtocol.add_peer never offers the own id
+                        cls = {'timeout': [], 'error': [], 'sendfail': []}
+                        for q in cons:
+                            r = rng.random()
+                            if r < self.p_sf:
+                                cls['sendfail'].append(key_str(q[1], q[2]))
+                            elif r < self.p_sf + p_dead:
+                                cls[rng.choice(['timeout', 'error'])].append(key_str(q[1], q[2]))
+                        o = ['radd', hx(idv), addr, port, cls]
                 elif c < 0.85 - self.w_remove:
                     o = rng.choice([['add_noid', BASE_IP + rng.randrange(n_addr), rng.choice(ports)],
                                     ['remove_noid', BASE_IP + rng.randrange(n_addr), rng.choice(ports)]])
@@ -771,6 +910,8 @@ class Gen:
                                       'requested': 'report_last_requested'}[o[0]])(ip_str(o[1]), o[2] or None)
                 elif o[0] == 'add':
                     impl.add(impl.mk(int(o[1], 16), o[2], o[3]), set(o[4]))
+                elif o[0] == 'radd':
+                    impl.add_real(impl.mk(int(o[1], 16), o[2], o[3]), o[4])
                 elif o[0] == 'remove':
                     impl.remove(impl.mk(int(o[1], 16), o[2], o[3]))
         finally:
@@ -877,7 +1018,10 @@ def main(run):
                 'node id, removals (present, absent, whole middle bucket emptied), malformed contacts, peer-manager '
                 'events (replied/failure/requested) and clock steps around 60 s and 720 s, probe outcomes chosen per '
                 'contact (timeout or RemoteException), find_close_peers with keys near contacts/own id/bucket edges and '
-                'counts None,0,1..1000,negative, get_peer, the same queries through KademliaRPC.find_node / find_value of a real '
+                'counts None,0,1..1000,negative; in 30% of the histories the probe is the REAL ping of KademliaProtocol._add_peer '
+                '(get_rpc_peer().ping -> send_request -> _send) over a simulated socket whose per-contact behaviour is chosen: '
+                'answers / datagram lost (timeout on the virtual clock) / error answer / local sendto() raises OSError; '
+                'get_peer, the same queries through KademliaRPC.find_node / find_value of a real '
                 'KademliaProtocol owning the table (requester inside/outside the table, key = requester id, K-1..K+2 contacts); plus the macro "far newcomer turned away by a full bucket, then one of '
                 'the K closest contacts removed or evicted, then a newcomer closer than the new K-th closest" inside random '
                 'histories and as histories built from scratch. distinct = distinct history; non-trivial = the table split at '
@@ -897,6 +1041,9 @@ def main(run):
     for _ in range(vlib.scaled(run.tier, 24, 600)):
         check_case(run, model, gen.stale_kth_case(), 'kth-after-removal')
     run.count('macro:kth-after-removal-in-random-history', gen.macro_hits)
+    # the liveness probe through the real protocol with a local send failure at exactly that ping
+    for _ in range(vlib.scaled(run.tier, 10, 200)):
+        check_case(run, model, gen.sendfail_case(), 'probe-local-send-failure')
     # closest-contacts queries through the RPC layer, every contact as requester, K-1..K+2 and more contacts known
     for _ in range(vlib.scaled(run.tier, 14, 300)):
         check_case(run, model, gen.rpc_case(), 'rpc-every-requester')
